@@ -385,10 +385,17 @@ def _is_idiom_for(src, alltoks, kw, k, lp):
     return bool(IDIOM_ENUM.fullmatch(h) or IDIOM_ZIP.fullmatch(h) or IDIOM_MAPITER.fullmatch(h))
 
 
-def rule_R6(piece, loops, src, loop_specs):
-    """`for PAT in RANGE {` -> `for PAT in RANGE <spec> {` : ghost only (done by the generic
-    loop-header insertion); nothing to rewrite.  Kept for the report."""
-    return
+def rule_R6(piece, loops, src):
+    """`for _ in RANGE {` -> `for verif_iN in RANGE {`: the anonymous loop variable of a range loop gets
+    a name so that the loop invariant can mention the iteration count (the body cannot refer to it).
+    The invariant itself is ghost text placed by the generic loop-header insertion."""
+    alltoks = src.toks
+    for n, lp in enumerate(loops, 1):
+        if lp['kind'] != 'for':
+            continue
+        t = alltoks[lp['kw'] + 1]
+        if t.text == '_' and alltoks[lp['kw'] + 2].text == 'in':
+            piece.replace(t.start, t.end, 'verif_i%d' % n, 'R6')
 
 
 def rule_R7(piece, src, start, end):
@@ -641,6 +648,8 @@ def _extract_fn(src, first, o, c, impl_info, rules, sections, opts, entry, repor
         rule_R8(piece, src, s, e, loops, loop_specs)
     if 'R5' in rules:
         rule_R5(piece, ftoks, loops, src, loop_specs)
+    if 'R6' in rules:
+        rule_R6(piece, loops, src)
     if 'R7' in rules:
         rule_R7(piece, src, s, e)
     if 'R9' in rules:
